@@ -3,6 +3,7 @@ package props
 import (
 	"fmt"
 	"sort"
+	"strings"
 
 	"verif/check"
 	"verif/world"
@@ -117,6 +118,14 @@ func finalInvariants(x *Ctx, left []world.Leftover) {
 	}
 	if g := gauge("session_count") - x.Base.Sessions; g != 0 {
 		x.fail("gauge", "session-gauge-final", "all clients gone but session_count gauge is off by %v", g)
+	} else if x.Base.SessSeries != nil {
+		// per series (one per app key): the sum can hide a session counted for the wrong app
+		if d := seriesDrift("session_count", x.Base.SessSeries); len(d) > 0 {
+			x.fail("gauge", "session-gauge-series-final", "all clients gone but series of session_count are off: %s", strings.Join(d, "; "))
+		}
+		if d := seriesDrift("ws_connected_clients", x.Base.ClientSeries); len(d) > 0 {
+			x.fail("gauge", "client-gauge-series-final", "all clients gone but series of ws_connected_clients are off: %s", strings.Join(d, "; "))
+		}
 	}
 	for i := 1; i <= 8; i++ {
 		if _, ok := x.W.Store.GetByGlobalID(fmt.Sprintf("srvx%x", i)); ok {
@@ -289,6 +298,53 @@ func init() {
 			Final: finalInvariants,
 		}
 	})
+	// three at once: a join by id, the last departure of that session, and the
+	// creation of another session (which may be given the recycled id): a joiner
+	// refused at the last step, or a lookup that finds the closed session, must not
+	// release the id or the registry entry a second time
+	registerBlock("c07-join-lastleave-create", func() *Block {
+		return &Block{
+			Setup: func(x *Ctx) { x.conn("a", "b", "c"); x.join("a", "") },
+			Fire: func(x *Ctx) {
+				m, rid := joinReq(x.W, x.C["b"], x.J["a"].SessionID)
+				x.Vars["ridb"] = rid
+				x.C["b"].SendMsg(m)
+				x.C["a"].Close()
+				m2, rid2 := joinReq(x.W, x.C["c"], "")
+				x.Vars["ridc"] = rid2
+				x.C["c"].SendMsg(m2)
+			},
+			Check: func(x *Ctx) {
+				delete(x.J, "a")
+				var members []string
+				jb := parseJoin(x.C["b"].Take(), x.Vars["ridb"].(uint32))
+				if jb.Answers != 1 {
+					x.fail("answer-count", "join-answers", "join got %d answers", jb.Answers)
+				}
+				if jb.OK {
+					x.J["b"] = jb
+					members = append(members, "b")
+				}
+				jc := parseJoin(x.C["c"].Take(), x.Vars["ridc"].(uint32))
+				if jc.OK {
+					x.J["c"] = jc
+					members = append(members, "c")
+				} else {
+					x.fail("answer", "create-refused", "creating a session was refused: %v", jc.Code)
+				}
+				registryInvariants(x, members)
+				probeMembers(x, members)
+				// and the id source is intact: two further sessions get ids of their own
+				x.conn("e", "f")
+				je, jf := x.join("e", ""), x.join("f", "")
+				if je.OK && jf.OK {
+					members = append(members, "e", "f")
+					registryInvariants(x, members)
+				}
+			},
+			Final: finalInvariants,
+		}
+	})
 	// join by id against a departure that is NOT the last one (control: must always succeed)
 	registerBlock("c07-join-vs-leave-nonlast", func() *Block {
 		return &Block{
@@ -341,6 +397,7 @@ func init() {
 			ld = 8
 		}
 		jobs = append(jobs, s1job("lifecycle", ld, []string{"C07"}, 4, budget))
+		jobs = append(jobs, s2sharded("c07-join-lastleave-create", b3, budget, 10)...)
 		return append(jobs, s2sharded("c07-lastleave-lastleave-create", b3, budget, 10)...)
 	}, check.PropInfo{
 		Rule: "S2: per scenario a setup history, then 2-3 requests fired at once; every interleaving of the connections' main-loop threads and session frame workers at lock/channel granularity with at most `bound` preemptions is executed on the real server (receiver/sender threads run eagerly); a state is one complete execution, a transition one choice point; distinct = distinct per-client message-type sequences. S1: BFS over join/switch/leave histories.",
